@@ -146,13 +146,7 @@ Proof. exact (shapes_meet_aabb_overlap A B lo1 hi1 lo2 hi2). Qed.
 Print Assumptions C04_shapes_meet_aabb_overlap.
 
 (** ** non-vacuity.  [T345z]: rotation by atan(4/3) about z (exact entries) + translation. *)
-Definition T345z : Pose R := P (M (V (3 / 5) (- (4 / 5)) 0) (V (4 / 5) (3 / 5) 0) (V 0 0 1)) (V 1 2 3).
-Definition T345x : Pose R := P (M (V 1 0 0) (V 0 (3 / 5) (- (4 / 5))) (V 0 (4 / 5) (3 / 5))) (V 1 2 3).
-Lemma T345z_rotation : is_rotation (rot T345z).
-Proof. apply is_rotation_cols. unfold cols_orthonormal, T345z. vunfold. cbn. repeat split; field. Qed.
-Lemma T345x_rotation : is_rotation (rot T345x).
-Proof. apply is_rotation_cols. unfold cols_orthonormal, T345x. vunfold. cbn. repeat split; field. Qed.
-
+(** [T345z], [T345x] and their [is_rotation] proofs are in Proofs/AabbProofsB.v *)
 Example C04_sphere_nonvacuous :
   aabb_exact (sphere_set (V 1 2 3) 2) (fst (sphere_aabb (V 1 2 3) 2)) (snd (sphere_aabb (V 1 2 3) 2)).
 Proof. apply C04_sphere; lra. Qed.
